@@ -336,7 +336,7 @@ def lincomb_cases(rng, tier, S):
         # C. shape sweep
         for shape in ([(3,), (3, 4), (100,), (1000,)] if (quick and dtype.startswith('>')) else small + med):
             for alias in ALIAS:
-                for a, b in rng.sample(pairs, (2 if main else 1) if quick else 6):
+                for a, b in rng.sample(pairs, (2 if main else 1) if quick else (6 if main else 3)):
                     run(shape, alias, a, b)
         # D. poisoned runs (floating dtypes): NaN in every buffer the call must not read
         #    (`out` when it is not an operand, the unused third buffer), and NaN inside an operand
@@ -887,7 +887,7 @@ def space_cases(rng, tier, S):
              ('P', [('T', 'float64', (3,)), ('T', 'int64', (3,))]),
              ('P', [('T', 'int64', (3,))] * 2),
              ('P', [('T', 'float64', (1,))])]
-    nrand = 4 if quick else 60
+    nrand = 4 if quick else 36
     recipes = list(fixed)
     for _ in range(nrand):
         recipes.append(rand_recipe(rng, rng.choice(['real', 'real', 'cx', 'int', 'mixed']), rng.randint(1, 3)))
